@@ -592,3 +592,40 @@ macro_rules! perm_mut2 {
 perm_mut2!(h_c13_mut_inversion_d2, 3, 4, mahf::components::mutation::common::InversionMutation::from_params());
 // @h tier=thorough bound="TranslocationMutation, 1 individual, 2 positions, all draw sequences within 4 draws" unwind=4 cost=8 mem=30 timeout=1200
 perm_mut2!(h_c13_mut_translocation_d2, 4, 4, mahf::components::mutation::common::TranslocationMutation::from_params());
+
+// ---- rate-carrying mutations: an instance configured with rate 0 runs with rate 0 -------------------
+// "leave unchanged whatever a mutation rate of zero excludes" must hold for every history of the
+// state the instance is initialised on: `init` installs the instance's own rate even when an earlier
+// instance of the same component type left a different (symbolic) rate behind.
+macro_rules! rate_reinit {
+    ($name:ident, $p:ty, $problem:expr, $t:ty, $c:expr) => {
+        #[cfg_attr(kani, kani::proof)]
+        #[cfg_attr(kani, kani::unwind(4))]
+        pub fn $name() {
+            use mahf::components::mutation::MutationRate;
+            let mut s: State<$p> = State::new();
+            let stale = sym::f64();
+            sym::assume(stale >= 0.0 && stale <= 1.0);
+            s.insert(MutationRate::<$t>::new(stale));
+            let c: $t = $c;
+            let problem = $problem;
+            assert!(Component::<$p>::init(&c, &problem, &mut s).is_ok(), "init");
+            let r = s.borrow::<MutationRate<$t>>().value();
+            assert!(matches!(r, Ok(v) if v == 0.0), "an instance configured with mutation rate 0 is initialised to rate 0 whatever an earlier instance left in the state");
+            vcover!(stale == 1.0, "a stale full rate");
+            std::mem::forget((s, problem));
+        }
+    };
+}
+// @h tier=quick bound="PartialRandomBitstring(p=0.5, rm=0) initialised on a state holding any earlier rate in [0,1]" unwind=4 cost=2
+rate_reinit!(h_c13_rate_reinit_partial_bitstring, BitP, BitP(2), mahf::components::mutation::PartialRandomBitstring, mahf::components::mutation::PartialRandomBitstring::from_params(0.5, 0.0));
+// @h tier=quick bound="BitFlipMutation(rm=0) initialised on a state holding any earlier rate in [0,1]" unwind=4 cost=2
+rate_reinit!(h_c13_rate_reinit_bitflip, BitP, BitP(2), mahf::components::mutation::BitFlipMutation, mahf::components::mutation::BitFlipMutation::from_params(0.0));
+// @h tier=quick bound="NormalMutation(std_dev=1, rm=0) initialised on a state holding any earlier rate in [0,1]" unwind=4 cost=2
+rate_reinit!(h_c13_rate_reinit_normal, RealP, RealP::d1(-1.0, 2.0), mahf::components::mutation::NormalMutation, mahf::components::mutation::NormalMutation::from_params(1.0, 0.0));
+// @h tier=quick bound="UniformMutation(bound=1, rm=0) initialised on a state holding any earlier rate in [0,1]" unwind=4 cost=2
+rate_reinit!(h_c13_rate_reinit_uniform, RealP, RealP::d1(-1.0, 2.0), mahf::components::mutation::UniformMutation, mahf::components::mutation::UniformMutation::from_params(1.0, 0.0));
+// @h tier=quick bound="PartialRandomSpread(rm=0) initialised on a state holding any earlier rate in [0,1]" unwind=4 cost=2
+rate_reinit!(h_c13_rate_reinit_spread, RealP, RealP::d1(-1.0, 2.0), mahf::components::mutation::PartialRandomSpread, mahf::components::mutation::PartialRandomSpread::from_params(0.0));
+// @h tier=quick bound="ScrambleMutation(rm=0) initialised on a state holding any earlier rate in [0,1]" unwind=4 cost=2
+rate_reinit!(h_c13_rate_reinit_scramble, PermP, PermP(3), mahf::components::mutation::ScrambleMutation, mahf::components::mutation::ScrambleMutation::from_params(0.0));
